@@ -3,16 +3,19 @@ package main
 // engines over data values: print (C06 first half: PRINT then READ), preamble (C15).
 
 import (
+	"context"
 	"encoding/hex"
 	"strings"
 
 	"github.com/jig/lisp"
+	"github.com/jig/lisp/env"
+	"github.com/jig/lisp/lib/core/nscore"
 	"github.com/jig/lisp/reader"
 
 	. "github.com/jig/lisp/types"
 )
 
-type printEngine struct{}
+type printEngine struct{ env EnvType }
 
 func init() { register("print", &printEngine{}) }
 
@@ -40,7 +43,38 @@ func (e *printEngine) runX(payload string) (string, string) {
 		return "bad-case", ""
 	}
 	text := lisp.PRINT(v)
-	return "pm=T " + roundTripText(v, text), hex.EncodeToString([]byte(text))
+	obs := "pm=T " + roundTripText(v, text)
+	// "equivalently read-string of pr-str": the builtins, called by a program, must agree with PRINT / READ
+	if e.env == nil {
+		e.env = env.NewEnv()
+		if err := nscore.Load(e.env); err != nil {
+			return "setup-error", ""
+		}
+	}
+	via := safeRunInline(func() string {
+		prog := ls(sy("let"), vc(sy("s"), call1("pr-str", call1("quote", v))), call1("list", sy("s"), call1("read-string", sy("s"))))
+		r, err := lisp.EVAL(context.Background(), prog, e.env)
+		if err != nil {
+			return "rt=err:" + errClass(err)
+		}
+		l, ok := r.(List)
+		if !ok || len(l.Val) != 2 {
+			return "rt=?"
+		}
+		if _, isStr := l.Val[0].(string); !isStr {
+			return "pr-str-not-a-string"
+		}
+		if sameData(v, l.Val[1]) {
+			return "rt=ok"
+		}
+		return "rt=FAIL"
+	})
+	// (texts may list the entries of a map / set in another order on each call: only the verdicts are compared, and an
+	// error class may depend on that order too)
+	if direct := strings.TrimPrefix(obs, "pm=T "); (via == "rt=ok") != (direct == "rt=ok") {
+		obs += "\t!(read-string (pr-str v)) ⇒ " + via + " while READ(PRINT(v)) ⇒ " + direct
+	}
+	return obs, hex.EncodeToString([]byte(text))
 }
 
 func (e *printEngine) classify(payload, obs string) string { return obs }
